@@ -85,6 +85,10 @@ pub fn gen_spec(rng: &mut Rng, o: &GenOpts) -> (Spec, PatClass) {
             ]),
         }
     };
+    // now and then a really large set: the byte-wise double array then spans a dozen or more
+    // 256-slot blocks (thresholds on the table size, block eviction with every setting)
+    let huge = !o.tiny && o.wide_max >= 300 && rng.chance(1, 24);
+    let class = if huge { PatClass::Wide } else { class };
     let mut set: BTreeSet<Vec<u8>> = BTreeSet::new();
     let small_cp = o.tiny || !rng.chance(o.big_cp_of_8, 8);
     match class {
@@ -121,11 +125,11 @@ pub fn gen_spec(rng: &mut Rng, o: &GenOpts) -> (Spec, PatClass) {
             }
         }
         PatClass::Wide => {
-            let n = rng.range(40, o.wide_max.max(41));
+            let n = if huge { rng.range(700, 1600) } else { rng.range(40, o.wide_max.max(41)) };
             match variant {
                 Variant::Bytewise => {
                     for _ in 0..n {
-                        let len = rng.range(1, 4);
+                        let len = if huge { rng.range(2, 4) } else { rng.range(1, 4) };
                         set.insert((0..len).map(|_| rng.below(256) as u8).collect());
                     }
                 }
